@@ -107,6 +107,18 @@ theorem setVecFlag_none (d : Device) (gi vi : Nat) (b : Bool) (hg : getVec d gi 
 
 theorem refreshVec_enabled (v : Vec) : (refreshVec v).enabled = v.enabled := rfl
 
+/-- building a definition reads values (or, for a BLOB, nothing at all): never a switch -/
+theorem refreshDef_keeps_switch (v : Vec) : (refreshDef v).enabled = v.enabled := by
+  unfold refreshDef; split <;> rfl
+
+theorem refreshVec_if_switch (c : Bool) (v : Vec) : (if c = true then refreshVec v else v).enabled = v.enabled := by
+  split <;> rfl
+
+theorem refreshDef_if_switch (c : Bool) (v : Vec) : (if c = true then refreshDef v else v).enabled = v.enabled := by
+  split
+  · exact refreshDef_keeps_switch v
+  · rfl
+
 theorem putBools_enabled (v : Vec) (bs : List Bool) : (putBools v bs).enabled = v.enabled := rfl
 
 theorem checkValue_enabled (v : Vec) (ei : Nat) (val : Value) (v1 : Vec) (st : Value)
@@ -200,10 +212,10 @@ theorem announce_flags (d : Device) (gi vi : Nat) : flagsOf (announce d gi vi).d
     split
     · rfl
     · dsimp only
-      have hk : flagsOf (setVec d gi vi (if vecEnabled g v = true then refreshVec v else v)) = flagsOf d := by
-        apply flagsOf_setVec_keep d gi vi g v _ hg
-        split <;> rfl
-      split <;> exact hk
+      split
+      · exact flagsOf_setVec_keep d gi vi g v _ hg (refreshDef_if_switch _ v)
+      · exact flagsOf_setVec_keep d gi vi g v _ hg
+          ((refreshVec_if_switch _ _).trans (refreshDef_if_switch _ v))
 
 theorem mergeRes_dev (a b : Result) : (mergeRes a b).dev = b.dev := rfl
 
@@ -231,8 +243,7 @@ theorem sendDefs_flags (d : Device) (l : List (Nat × Nat)) : flagsOf (sendDefs 
       · rfl
       · dsimp only
         rw [mergeRes_dev, ih]
-        apply flagsOf_setVec_keep d gi vi g v _ hg
-        split <;> rfl
+        exact flagsOf_setVec_keep d gi vi g v _ hg (refreshDef_if_switch _ v)
 
 theorem applyChildren_flags (gi vi : Nat) (d : Device) (ps : List Part) :
     flagsOf (applyChildren gi vi d ps).dev = flagsOf d := by
